@@ -33,6 +33,8 @@ h_read_toeof(void)
 	IN(int, status);
 	size_t wlen, bodylen0;
 	struct h_obs o;
+	size_t gi = nondet_size_t();
+	uint8_t b_old = 0, b_src = 0;
 	int rc;
 
 	H->res_head = h_maybe_obj(4);
@@ -41,11 +43,24 @@ h_read_toeof(void)
 	h_mk_ghost();
 	wlen = H->R->datalen - H->R->bufpos;
 	bodylen0 = H->res.bodylen;
+	/* ghost byte (G1): an old body byte, or the window byte that should become body byte gi */
+	if (gi < H->res.bodylen)
+		b_old = H->res.body[gi];
+	else if (gi - H->res.bodylen < wlen)
+		b_src = H->R->buf[H->R->bufpos + (gi - H->res.bodylen)];
 	o = h_before(H);
 
 	rc = callback_read_toeof(H, status);
 
 	H_CHECK_C08(o, rc);
+	if (!H_ENDED(o) && status == 0) {
+		/* C09: the body grows by exactly the bytes taken from the window, in order; what was there is kept */
+		__CPROVER_assert(H->res.bodylen >= bodylen0 && H->res.bodylen - bodylen0 <= wlen, "C09: the body grows by window bytes only");
+		if (gi < bodylen0)
+			__CPROVER_assert(H->res.body[gi] == b_old, "C09: body bytes already stored are kept");
+		else if (gi < H->res.bodylen)
+			__CPROVER_assert(H->res.body[gi] == b_src, "C09: appended body bytes are the window bytes, in order");
+	}
 	VCOVER(status == 0 && wlen > o.max - bodylen0 && H_ENDED(o) && g_http_cb_bodylen == SIZE_MAX);	/* too big */
 	VCOVER(status == 0 && wlen == o.max - bodylen0 && wlen > 0 && !H_ENDED(o));				/* exactly at the limit */
 	VCOVER(status == 0 && wlen == 0 && !H_ENDED(o));
